@@ -119,7 +119,7 @@ Definition do_find (searches : list sid) (items : list string) : outcome (list s
 Definition find_list (items : list string) (search : string) : outcome (list string) :=
   do x <- Sid L search;
   let is_alias := dmem (c_extension_alias (l_conf L)) (last (split_c "/" (s_string x)) "") in
-  if sid_bool x && negb (is_search L x) && negb is_alias then do_find [x] items
+  if sid_bool x && negb (is_search L x) && negb is_alias && negb (mem_c "?" (s_string x)) then do_find [x] items
   else do qs <- unfold_search L search false false; do_find qs items.
 
 (* as_sid=True: each result retyped by Sid(item) *)
